@@ -50,6 +50,29 @@ def parents_of(root: ast.AST) -> dict[int, ast.AST]:
     return p
 
 
+def guard_conditions(fn: ast.AST, node: ast.AST) -> list[ast.AST]:
+    """Effective conditions under which `node` runs: for every enclosing `if`, its test when the node is in the
+    body and the complement of the test when it is in the else branch (innermost first)."""
+    import copy
+
+    from ..loader import _neg
+
+    parents = parents_of(fn)
+    out = []
+    cur = node
+    while cur is not fn and cur is not None:
+        par = parents.get(id(cur))
+        if isinstance(par, ast.If):
+            in_body = any(cur is s for s in par.body)
+            in_else = any(cur is s for s in par.orelse)
+            if in_body:
+                out.append(par.test)
+            elif in_else:
+                out.append(_neg(copy.deepcopy(par.test)))
+        cur = par
+    return out
+
+
 def calls_in(node: ast.AST):
     return [n for n in ast.walk(node) if isinstance(n, ast.Call)]
 
